@@ -14,6 +14,7 @@ import (
 	"net"
 	"net/http"
 	"net/http/httptest"
+	"net/url"
 	"os"
 	"sort"
 	"strings"
@@ -105,19 +106,31 @@ type gateEnv struct {
 var inCidrAddr = map[string]string{"": "127.0.0.1", "127.0.0.1/8": "127.0.0.1", "127.0.0.1/32": "127.0.0.1",
 	"10.0.0.0/8": "10.0.0.1", "192.0.2.0/30": "192.0.2.1", "0.0.0.0/0": "1.2.3.4", "::1/128": "::1", "fd00::/8": "fd00::1"}
 
+// nameSfx: appended to every topic and channel name of a replay pass ("" or "#ephemeral": the same table over names that
+// carry the one character of a valid name that means something in a URL)
+var nameSfx string
+
+func cn(s string) string {
+	if s == "" {
+		return s
+	}
+	return s + nameSfx
+}
+
 func c17Cluster(bad string) *Cluster {
 	one := func(x int64) ChanC { return ChanC{Depth: Pair{0, x}, MessageCount: Pair{0, x}, Clients: []string{}} }
 	tp := func() TopicC {
-		return TopicC{Depth: Pair{0, 1}, MessageCount: Pair{0, 2}, Channels: ChanMap{"c1": one(1)}}
+		return TopicC{Depth: Pair{0, 1}, MessageCount: Pair{0, 2}, Channels: ChanMap{cn("c1"): one(1)}}
 	}
+	t1, t2, t3 := cn("t1"), cn("t2"), cn("t3")
 	return &Cluster{Mode: "lookupd", L: []string{"L1", "L2"}, N: []string{"N1", "N2", "N3"},
 		Nsqd: NsqdMap{
-			"N1": {Ver: "1.3.0", Topics: TopicMap{"t1": tp()}},
-			"N2": {Ver: "1.3.0", Topics: TopicMap{"t1": tp(), "t2": tp()}},
-			"N3": {Ver: "1.3.0", Topics: TopicMap{"t3": tp()}}},
+			"N1": {Ver: "1.3.0", Topics: TopicMap{t1: tp()}},
+			"N2": {Ver: "1.3.0", Topics: TopicMap{t1: tp(), t2: tp()}},
+			"N3": {Ver: "1.3.0", Topics: TopicMap{t3: tp()}}},
 		Lookupd: LookupdMap{
-			"L1": {Topics: []string{"t1"}, Nodes: LNodeMap{"N1": {Topics: []string{"t1"}}}},
-			"L2": {Topics: []string{"t1", "t2"}, Nodes: LNodeMap{"N1": {Topics: []string{"t1"}}, "N2": {Topics: []string{"t1", "t2"}}}}},
+			"L1": {Topics: []string{t1}, Nodes: LNodeMap{"N1": {Topics: []string{t1}}}},
+			"L2": {Topics: []string{t1, t2}, Nodes: LNodeMap{"N1": {Topics: []string{t1}}, "N2": {Topics: []string{t1, t2}}}}},
 		Fail: StrMap{}, BadPost: bad}
 }
 
@@ -392,12 +405,12 @@ func (e *gateEnv) wire(r GateReq) wireReq {
 	switch r.Route {
 	case "topics":
 		w.path = "/api/topics"
-		w.body = jb(map[string]string{"topic": r.Topic, "channel": r.Channel})
+		w.body = jb(map[string]string{"topic": cn(r.Topic), "channel": cn(r.Channel)})
 	case "topic":
-		w.path = "/api/topics/" + r.Topic
+		w.path = "/api/topics/" + url.PathEscape(cn(r.Topic))
 		w.body = jb(map[string]string{"action": r.Action})
 	case "channel":
-		w.path = "/api/topics/" + r.Topic + "/" + r.Channel
+		w.path = "/api/topics/" + url.PathEscape(cn(r.Topic)) + "/" + url.PathEscape(cn(r.Channel))
 		w.body = jb(map[string]string{"action": r.Action})
 	case "nodes":
 		w.path = "/api/nodes"
@@ -407,7 +420,7 @@ func (e *gateEnv) wire(r GateReq) wireReq {
 			addr = e.cell.stubAddr(r.Node)
 		}
 		w.path = "/api/nodes/" + addr
-		w.body = jb(map[string]string{"topic": r.Topic})
+		w.body = jb(map[string]string{"topic": cn(r.Topic)})
 	case "counter":
 		w.path = "/api/counter"
 	case "ping":
@@ -507,6 +520,12 @@ func upKey(u UpReq) string {
 	return u.To + " " + u.M + " " + u.Path + " t=" + u.Topic + " c=" + u.Channel + " n=" + u.Node
 }
 
+// expKey: the key of an upstream request the table expects, under this pass's names
+func expKey(u UpReq) string {
+	u.Topic, u.Channel = cn(u.Topic), cn(u.Channel)
+	return upKey(u)
+}
+
 func upSet(us []UpReq, method string) (map[string]int, []string) {
 	m := map[string]int{}
 	for _, u := range us {
@@ -551,8 +570,8 @@ func judge(row *GateRow, obs *GateObs) *GateFinding {
 		if row.Status == 200 {
 			var missing []string
 			for _, u := range row.Relevant {
-				if u.To != "DEAD" && obsPosts[upKey(u)] == 0 {
-					missing = append(missing, upKey(u))
+				if u.To != "DEAD" && obsPosts[expKey(u)] == 0 {
+					missing = append(missing, expKey(u))
 				}
 			}
 			if len(missing) > 0 {
@@ -632,7 +651,10 @@ func gateReplay(args []string) int {
 	report := fs.String("report", "", "report file")
 	par := fs.Int("parallel", 8, "configurations run in parallel")
 	only := fs.String("only", "", "replay file: run only the row stored there")
+	sfx := fs.String("name-suffix", "", "appended to every topic and channel name (cluster, requests, expectations)")
+	mutOnly := fs.Bool("mut-only", false, "only the rows of state-changing requests")
 	fs.Parse(args)
+	nameSfx = *sfx
 	rep := &GateReport{ByStatus: map[string]int{}}
 	fail := func(err error) int {
 		rep.Error = err.Error()
@@ -658,7 +680,13 @@ func gateReplay(args []string) int {
 		rep.Rows = 1
 	} else {
 		gotCluster := false
-		if err := readTagged(*tlcOut, "CLUSTER", func(raw []byte) error { gotCluster = true; return checkSpecCluster(raw) }); err != nil {
+		if err := readTagged(*tlcOut, "CLUSTER", func(raw []byte) error {
+			gotCluster = true
+			if nameSfx != "" {
+				return nil
+			}
+			return checkSpecCluster(raw)
+		}); err != nil {
 			return fail(err)
 		}
 		if !gotCluster {
@@ -672,6 +700,9 @@ func gateReplay(args []string) int {
 			row := &GateRow{}
 			if err := json.Unmarshal(raw, row); err != nil {
 				return err
+			}
+			if *mutOnly && !row.Mut {
+				return nil
 			}
 			k, _ := json.Marshal(row.Cfg)
 			groups[string(k)] = append(groups[string(k)], row)
